@@ -236,8 +236,11 @@ func bytesCases(r *rand.Rand, thorough bool) {
 			cutStream = r.Intn(len(set) + 20)
 		case 2: // message set size field disagrees with the frame
 			declaredSet = len(set) + 1 + r.Intn(3)
-		case 3: // nothing available: high watermark = fetch offset, empty set
-			hwm, set, declaredSet = offset, nil, 0
+		case 3: // nothing available: high watermark = fetch offset; the set is empty — or not (the reader must skip it)
+			hwm = offset
+			if r.Intn(2) == 0 {
+				set, declaredSet = nil, 0
+			}
 		case 4: // partition error
 			errCode = []int16{1, 3, 6}[r.Intn(3)]
 			if r.Intn(2) == 0 {
